@@ -191,7 +191,10 @@ type mnodeOpts struct {
 }
 
 func quietD5Config(key *ecdsa.PrivateKey, boot []*enode.Node) discover.Config {
-	return discover.Config{PrivateKey: key, Bootnodes: boot, PingInterval: 10000 * time.Hour, RefreshInterval: 10000 * time.Hour}
+	// Clock: discv5 measures handshake and session ages with its clock's Now(); the default
+	// (mclock.System) reads real time even inside a bubble, which made transfers fail with
+	// "RPC timeout" on a loaded machine
+	return discover.Config{PrivateKey: key, Bootnodes: boot, PingInterval: 10000 * time.Hour, RefreshInterval: 10000 * time.Hour, Clock: portalwire.VClock{}}
 }
 
 // newMNode starts a real node or a puppet on the wire. Must be called inside a bubble.
